@@ -49,6 +49,8 @@ def notification(P, R):
     def atoms(r):
         l, op, rr = r
         out = []
+        if is_var(rr, dv) and not is_var(l, dv) and op in ('==', '!='):
+            l, rr = rr, l          # `used == differ` is `differ == used`
         if is_var(l, dv) and op in ('==', '!='):
             if on_path(rr, 'used') and root_var(rr) is not None and root_var(rr)['name'] == newv:
                 out.append(('A', op == '=='))
@@ -269,7 +271,12 @@ def registration(P, R):
     R.ob('C15.MPT.2', okm, marks[0] if marks else rn, 'every return of the registration has marked the node as registered (so a later file that omits it reverts it to its default instead of deleting it)', key='marks-specified')
     # the marked node is the one returned
     if marks and rets:
-        R.ob('C15.MPT.2', all(same(r.ev.get('val'), marks[0].ev['lhs']['base']) for r in rets), rets[0], 'the node returned is the one that was marked', key='returns-marked', nontrivial=False)
+        def marked_before(r):
+            for mk in marks:
+                if same(r.ev.get('val'), mk.ev['lhs']['base']) and (rn.path_avoiding(None, lambda t: t.key == mk.key, target=r.bid, from_entry=True) is None or any(t.key == mk.key for t in rn.block_sites(r.bid)[:r.idx])):
+                    return True
+            return False
+        R.ob('C15.MPT.2', all(marked_before(r) for r in rets), rets[0], 'the node returned is the one that was marked', key='returns-marked', nontrivial=False)
     R.floor('C15.MPT.2', 3)
 
 
